@@ -61,6 +61,33 @@ def run_imports(run, quick: bool) -> None:
         first = next((k for k in order if k in have), None)
         ls.append({"name": f"random_lookup:{i}", "files": files, "main": "m/main.exps", "lps": [f"@ROOT@/p{k}" for k in order],
                    "expect": first if first is not None else "Compiler"})
+    # acyclic import graphs: every file defines one macro that calls the macros of the files it imports (diamonds,
+    # shared files that import further files, files in different directories); all of them compile, and the routine
+    # performs the ops of all files in call order
+    import os
+    for i in range(30 if quick else 300):
+        r = random.Random(f"C05-dag-{run.seed}-{i}")
+        n = r.randint(3, 7)
+        dirs = [r.choice(["m", "m/lib", "m/lib/shared", "base"]) for _ in range(n)]
+        dirs[0] = "m"
+        names = [f"{dirs[k]}/f{k}.exps" for k in range(n)]
+        deps = {k: sorted(r.sample(range(k + 1, n), r.randint(0 if k else 1, min(3, n - k - 1)))) for k in range(n)}
+        files = {}
+
+        def order(k: int) -> list[int]:
+            out = [k]
+            for d in deps[k]:
+                out += order(d)
+            return out
+        for k in range(n):
+            imps = "".join('import "./%s";\n' % os.path.relpath(names[d], os.path.dirname(names[k])) for d in deps[k])
+            body = f"    from_lib({k});\n" + "".join(f"    ~g{d}();\n" for d in deps[k])
+            if k == 0:
+                files["m/main.exps"] = imps + "def 0 {\n" + "".join(f"    ~g{d}();\n" for d in deps[0]) + "    end;\n}\n"
+            else:
+                files[names[k]] = imps + f"macro g{k}() {{\n{body}}}\n"
+        expect = [x for d in deps[0] for x in order(d)]
+        ls.append({"name": f"import_dag:{i}", "files": files, "main": "m/main.exps", "lps": [], "expect": expect})
     res = run_impl([("files:compile_files", l["files"], l["main"], l["lps"]) for l in ls])
     for l, r in zip(ls, res):
         run.case(["imports", l["name"], l["files"], l["lps"]], nontrivial=True)
